@@ -50,11 +50,13 @@ FwdCtx  == {"top", "dead", "nested_now", "nested_after", "nested_never", "lambda
 NestedCtx == {"nested_now", "nested_after", "nested_never"}
 
 (* statement forms, by what the walker sees *)
-StoreLike == {"rebind", "aug", "fortarget", "withas", "walrus", "delete"}   \* ast.Name in Store/Del context
-LoadLike  == {"handover", "contains", "item_set", "item_del"}                \* ast.Name in Load context (not as * / ** of a call)
+StoreLike == {"rebind", "aug", "fortarget", "withas", "walrus", "delete",    \* ast.Name in Store/Del context
+              "import_as", "match_capture"}                                   \* binding forms WITHOUT an ast.Name node: import .. as, match capture
+LoadLike  == {"handover", "contains", "item_set", "item_del",                \* ast.Name in Load context (not as * / ** of a call)
+              "default_capture"}                                              \* captured as a default value of a nested lambda / def
 Method    == {"method", "method_ro"}                                          \* attribute call on the star: kwargs.pop(..) / kwargs.get(..)
 (* forms that exist for each star *)
-HowTop(tgt)    == IF tgt = "A" THEN {"rebind", "aug", "fortarget", "withas", "walrus", "handover", "method_ro"}
+HowTop(tgt)    == IF tgt = "A" THEN {"rebind", "aug", "fortarget", "withas", "walrus", "handover", "method_ro", "import_as", "match_capture", "default_capture"}
                   ELSE StoreLike \cup LoadLike \cup Method
 HowNested(tgt) == IF tgt = "A" THEN {"nonlocal", "handover", "method_ro"}
                   ELSE {"nonlocal", "handover", "contains", "item_set", "item_del", "method", "method_ro"}
@@ -76,7 +78,7 @@ Stmts == {s \in FwdStmts \cup TaintStmts : WellFormed(s)} \cup {Decoy}
 (* handed to other code, rebound through nonlocal); *args is a tuple: handing it over or calling a method cannot change it *)
 RtChanges(tgt, how) ==
   IF tgt = "A" THEN how \in (StoreLike \ {"aug"}) \cup {"nonlocal"}     \* `args += ()` yields the very same tuple object: no change
-  ELSE how \in StoreLike \cup {"nonlocal", "item_set", "item_del", "method", "handover"}
+  ELSE how \in StoreLike \cup {"nonlocal", "item_set", "item_del", "method", "handover", "default_capture"}
 
 (* ------------------------------------------------------------------ state *)
 St0 == [mA |-> "arg", mK |-> "arg", tA |-> FALSE, tK |-> FALSE, calls |-> <<>>, deferred |-> <<>>,
